@@ -164,3 +164,86 @@ func HarnessC03SyncEndpoints() {
 	}
 	vreach("end")
 }
+
+func c03Spelling(key string, idx ...int) string {
+	switch nondetRange(key, 0, 3, idx...) {
+	case 0:
+		return "https://a"
+	case 1:
+		return "https://a/"
+	case 2:
+		return "https://b"
+	}
+	return "https://b/"
+}
+
+func c03Norm(s string) string {
+	for len(s) > 0 && s[len(s)-1] == '/' {
+		s = s[:len(s)-1]
+	}
+	return s
+}
+
+// HarnessC03DisabledSpellings: server lists whose endpoints are spelled with or without a trailing slash (both pass
+// validation). Whatever the implementation does about the two spellings, a server that the latest list marks disabled
+// (and does not also list enabled under either spelling) is neither enabled nor probed in the endpoint map, and is never
+// picked even when every endpoint is healthy and the policy names every spelling.
+// verif:bounds two successive lists of 0..2 (quick) / 3 (thorough) entries over {https://a, https://a/, https://b, https://b/}, disabled nil/false/true per entry
+func HarnessC03DisabledSpellings() {
+	c := c03Cluster()
+	mk := func(key string, n int) []proxyv1alpha1.UpstreamClusterServer {
+		out := make([]proxyv1alpha1.UpstreamClusterServer, n)
+		for i := range out {
+			out[i].Endpoint = c03Spelling(key, i)
+			switch nondetRange(key+".disabled", 0, 2, i) {
+			case 1:
+				f := false
+				out[i].Disabled = &f
+			case 2:
+				t := true
+				out[i].Disabled = &t
+			}
+		}
+		return out
+	}
+	first := mk("s1", nondetRange("n1", 0, vbound(2, 3)))
+	if err := c.syncEndpoints(first); err != nil {
+		vfail("C03/sync-endpoints-fails")
+		return
+	}
+	second := mk("s2", nondetRange("n2", 0, vbound(2, 3)))
+	if err := c.syncEndpoints(second); err != nil {
+		vfail("C03/sync-endpoints-fails")
+		return
+	}
+	// every endpoint passes its probe
+	c.Endpoints.Range(func(name string, info *EndpointInfo) bool { info.status.Healthy = true; return true })
+	for _, s := range second {
+		if s.Disabled == nil || !*s.Disabled {
+			continue
+		}
+		conflicting := false
+		for _, o := range second {
+			if c03Norm(o.Endpoint) == c03Norm(s.Endpoint) && (o.Disabled == nil || !*o.Disabled) {
+				conflicting = true
+			}
+		}
+		if conflicting {
+			continue
+		}
+		c.Endpoints.Range(func(name string, info *EndpointInfo) bool {
+			if c03Norm(name) == c03Norm(s.Endpoint) {
+				vassert(info.status.Disabled, "C03/server-marked-disabled-is-enabled")
+				vassert(info.cancelHealthCheck == nil, "C03/server-marked-disabled-is-probed")
+			}
+			return true
+		})
+		p := &endpointPickStrategy{cluster: c, upstreams: []string{"https://a", "https://a/", "https://b", "https://b/"}}
+		for i := 0; i < 2; i++ {
+			if ep, err := p.Pop(); err == nil && ep != nil {
+				vassert(c03Norm(ep.Endpoint) != c03Norm(s.Endpoint), "C03/server-marked-disabled-is-picked")
+			}
+		}
+	}
+	vreach("end")
+}
